@@ -20,6 +20,7 @@
 import IocProofs.Lemmas.M2TermSelf
 import IocProofs.Lemmas.M2SucceedsPerm
 import Ioc.Generated.Facts
+import IocProofs.Lemmas.SemCreate
 namespace Ioc.C02
 open Ioc Ioc.M2
 
@@ -222,5 +223,23 @@ example : (final (selfLoop true)).status ≠ .done :=
   fun h => (C02_succeeds_iff _ (plain_noSubst _ _) (fun _ _ => rfl)).mp h 0 (Reach.root (by decide)) (by decide)
 
 end succeeds
+
+/-! ### the tie to the code: early exposure precedes population (regenerated doCreateComponent)
+
+Cycles resolve because a component in creation registers its early-reference factory BEFORE its dependencies are looked
+up.  About the regenerated program of `doCreateComponent` (see C03_code_doCreateComponent): whenever the component is a
+singleton in creation and circular references are allowed, the first effectful call is AddSingletonFactory and
+populateComponent comes right after it — for every behaviour of every collaborator. -/
+theorem C02_code_exposure_before_populate (d : Sem.DCC) (hc : Sem.dccConsistent d)
+    (hx : (d.singleton && d.allow && d.inCrOf d.n) = true) :
+    ∃ out rest, Go.run (Sem.dccPrims d) Progs.fac_doCreateComponent [.int d.n, .ref d.n 0] [] =
+      some (out, "addFactory" :: "populate" :: rest) := by
+  have htr : ∃ rest, (Sem.createDecision d).2 = "addFactory" :: "populate" :: rest := by
+    unfold Sem.createDecision
+    simp only [hx]
+    repeat' split
+    all_goals simp_all
+  obtain ⟨rest, hr⟩ := htr
+  exact ⟨_, rest, (Sem.doCreateComponent_sem d hc).trans (by rw [hr])⟩
 
 end Ioc.C02
